@@ -45,7 +45,7 @@ def build(rng, tier):
             c["vindex"] = idx
             if c["mask"]["k"] == "bool":
                 c["mcont"] = "np"
-        if n >= 2 and rng.random() < 0.35 and not (kenc == "str" and keys[0] == NULL) and not (c["mask"]["k"] == "slice" and c["mask"]["s"][2] not in (-997, 1)):
+        if n >= 2 and rng.random() < 0.35 and not (c["mask"]["k"] == "slice" and c["mask"]["s"][2] not in (-997, 1)):
             c["T"] = rng.pick([2, 4]) if n >= 4 else 2
         return c
 
